@@ -15,6 +15,7 @@ import (
 // {VEVENT,VTODO,VJOURNAL,VFREEBUSY,VTIMEZONE} x UID {absent,u1,u2}.
 
 var c19Types = []string{ical.CompEvent, ical.CompToDo, ical.CompJournal, ical.CompFreeBusy, ical.CompTimezone}
+
 // UID choices: absent, two plain texts, a text that needs escaping on the wire, a case variant of u1
 // (UIDs are compared exactly), and a UID property present with an empty value (no UID)
 var c19UIDs = []string{"", "u1", "u2", `o,4;a\b`, "U1", "\x00EMPTY"}
